@@ -5,9 +5,9 @@ with LOGICA_REPO=<copy> and must print VIOLATION; the copy is deleted.
 
   selftest/c12_mutations.py [name ...]        (default: all)
 
-`base: fixed` mutations are applied on top of proposed_fixes/C12-*.diff (the
-prefix loop can only be shown to matter where files sharing a base name are
-accepted at all).  Results: build/c12/mutations.json.
+`base: fixed` mutations would be applied on top of proposed_fixes/C12-*.diff;
+since /repo contains that fix (commit 3b7e016) every mutation now starts from
+/repo.  Results: build/c12/mutations.json.
 """
 import json
 import os
@@ -21,7 +21,7 @@ PY = 'parser_py/parse.py'
 CPP = 'parser_cpp/logica_parse.cpp'
 
 MUTATIONS = [
-    dict(name='prefix_loop_removed', base='fixed', file=PY,
+    dict(name='prefix_loop_removed', base='repo', file=PY,
          old="""    while this_file_prefix in existing_prefixes:
       idx -= 1
       if -idx <= len(parts):
@@ -57,6 +57,21 @@ MUTATIONS = [
          old="      if p[0] != '@' and p != '++?':\n        RenamePredicate(rules, p, this_file_prefix + p)",
          new="      if p[0] != '@' and p != '++?' and p != 'Helper':\n        RenamePredicate(rules, p, this_file_prefix + p)",
          why='private predicates called Helper are not renamed: they collide'),
+    dict(name='last_root_wins', base='repo', file=PY,
+         old="    for root in import_root:\n      file_path = os.path.join(root, '/'.join(file_import_parts) + '.l')",
+         new="    for root in reversed(import_root):\n      file_path = os.path.join(root, '/'.join(file_import_parts) + '.l')",
+         why='with several import roots the LAST root that has the module '
+             'path wins instead of the first: silently different rows'),
+    dict(name='aux_predicates_unprefixed', base='repo', file=PY,
+         old="      if p[0] != '@' and p != '++?':\n        RenamePredicate(rules, p, this_file_prefix + p)",
+         new="      if p[0] != '@' and p != '++?' and not p.endswith('_MultBodyAggAux'):\n        RenamePredicate(rules, p, this_file_prefix + p)",
+         why='auxiliary predicates of multi-body aggregation keep their '
+             'unprefixed name: two files with a same-named aggregating '
+             'predicate collide'),
+    dict(name='cpp_last_root_wins', base='repo', file=CPP,
+         old='  for (const auto& root : roots) {\n    std::filesystem::path p = std::filesystem::path(root) / rel;',
+         new='  std::reverse(roots.begin(), roots.end());\n  for (const auto& root : roots) {\n    std::filesystem::path p = std::filesystem::path(root) / rel;',
+         why='C++ parser: the last import root wins'),
     dict(name='cpp_alias_ignored', base='repo', file=CPP,
          old='std::string imported_as = ip.at("synonym").is_null() ? imported_pred_name : ip.at("synonym").as_string();',
          new='std::string imported_as = imported_pred_name;',
